@@ -352,7 +352,8 @@ impl Acc {
 }
 
 // ---------------------------------------------------------------------------
-// Non-return supervision (properties whose statement is "every call returns Ok or Err").
+// Non-return supervision (properties whose statement is that a call RETURNS: C04 "returns Ok or Err for
+// every input", C16 "if the random source reports failure the operation returns an error").
 //
 // A time limit is never a verdict: a sub-check that exceeds its wall-clock budget is reported as
 // inconclusive (exit 2).  A case on which the code under test demonstrably does not return is
@@ -364,7 +365,7 @@ impl Acc {
 // is the case reported (`<Cxx>/<sub>/does-not-return`); if the control returns, or anything is
 // unclear, the run is inconclusive.
 
-pub const NONRETURN_IS_VIOLATION: &[&str] = &["C04"];
+pub const NONRETURN_IS_VIOLATION: &[&str] = &["C04", "C16"];
 
 pub fn nonreturn_cpu_s() -> u64 {
     std::env::var("PV_NONRETURN_CPU_S").ok().and_then(|s| s.parse().ok()).unwrap_or(60)
